@@ -72,3 +72,44 @@ def _inv_ghosts(args, result, locs):
 
 
 CONTRACTS['distance_wei_floyd:inv'].concrete_ghosts = _inv_ghosts
+
+
+# ---- distance_wei_floyd (transform=None): the hop-count and next-node matrices -----------------------------------------------------------
+# What retrieve_shortest_path needs of its producer (FloydConsistent, contracts/distance.py): following Pmat from i towards j moves along an
+# existing connection, lowers hops by exactly one and SPL by exactly the length of that connection.  Proved WITHOUT reference to walks, by an
+# invariant that is inductive on its own (pivot counter k = _it):
+#   DIRECT  an existing connection bounds the entry:  adjacency[v,w] != 0  =>  SPL[v,w] <= adjacency[v,w]
+#   TRI     for every already processed pivot q < k and connection v -> q:  SPL[v,w] <= adjacency[v,q] + SPL[q,w]
+#   FIRST   the recorded next node of (v,w) is w itself or an already processed pivot
+#   NEXT    for v != w with a finite entry, p = Pmat[v,w]: connection v -> p exists, SPL[v,w] == adjacency[v,p] + SPL'[p,w] and
+#           hops[v,w] == 1 + hops'[p,w]   (SPL'[w,w] = hops'[w,w] = 0: the diagonal is overwritten with 0 at the end); hops == 0 iff the entry is infinite
+# ASSUMPTION (exact real arithmetic, as everywhere): np.isclose(a, b, rtol=1e-12, atol=0) is modelled as a == b, i.e. the tolerance only
+# absorbs rounding error.  (With a genuine relative difference below 1e-12 SPL would be lowered without Pmat being updated.)
+_P = "Pmat[v, w]"
+_SPLp = "(0 if %s == w else SPL[%s, w])" % (_P, _P)
+_HOPp = "(0 if %s == w else hops[%s, w])" % (_P, _P)
+_PINV = [
+    ('FRAME', "And(n == n0, unchanged('adjacency'))"),
+    ('RANGE-entries-between-zero-and-infinity', _N2 % "And(SPL[v, w] >= 0, SPL[v, w] <= INF)"),
+    ('DIRECT-an-existing-connection-bounds-the-entry', _N2 % "implies(adjacency[v, w] != 0, SPL[v, w] <= adjacency[v, w])"),
+    ('TRI-processed-pivots-give-no-shorter-detour', "forall(lambda v, w, q: implies(And(inr(v, n0), inr(w, n0), q >= 0, q < _it, q < n0, adjacency[v, q] != 0), SPL[v, w] <= adjacency[v, q] + SPL[q, w]), pattern=(adjacency[v, q], SPL[q, w]))"),
+    ('FIRST-next-node-is-the-target-or-a-processed-pivot', _N2 % ("And(inr(%s, n0), Or(%s == w, %s < _it))" % (_P, _P, _P))),
+    ('ZERO-hops-exactly-for-infinite-entries', _N2 % "implies(v != w, And(iff(hops[v, w] == 0, SPL[v, w] == INF), hops[v, w] >= 0))"),
+    ('NEXT-connection-exists', _N2 % ("implies(And(v != w, SPL[v, w] < INF), adjacency[v, %s] != 0)" % _P)),
+    ('NEXT-length-drops-by-that-connection', _N2 % ("implies(And(v != w, SPL[v, w] < INF), SPL[v, w] == adjacency[v, %s] + %s)" % (_P, _SPLp))),
+    ('NEXT-hops-drop-by-one', _N2 % ("implies(And(v != w, SPL[v, w] < INF), And(hops[v, w] == 1 + %s, hops[v, w] >= 1))" % _HOPp)),
+]
+CONTRACTS['distance_wei_floyd:paths'] = Contract(
+    MOD, 'distance_wei_floyd', ['adjacency', 'transform'], setup=_setup, key='distance_wei_floyd:paths', isclose_exact=True,
+    requires=[('lengths-nonnegative-and-finite', _N2 % "And(adjacency[v, w] >= 0, adjacency[v, w] < INF)"), ('infinity-positive', "INF > 0")],
+    loops={'for k in range(*': {'name': 'pivots', 'inv': _PINV}},
+    ghost_before={'hops[path] = *': "Pold = snapshot(Pmat); Hold = snapshot(hops)",
+                  'SPL = np.min(*': "check('H-improved-pairs-go-through-the-pivot-with-finite-legs', " + (_N2 % "implies(path[v, w], And(v != k, w != k, SPL[v, k] < INF, SPL[k, w] < INF, SPL[v, w] > SPL[v, k] + SPL[k, w]))") + "); "
+                                    "check('H-bookkeeping-of-improved-pairs', " + (_N2 % "And(implies(path[v, w], And(hops[v, w] == Hold[v, k] + Hold[k, w], Pmat[v, w] == Pold[v, k])), implies(Not(path[v, w]), And(hops[v, w] == Hold[v, w], Pmat[v, w] == Pold[v, w])))") + "); "
+                                    "check('H-the-next-node-of-an-improved-pair-is-improved-too', " + (_N2 % "implies(And(path[v, w], v != w, Pold[v, k] != k), And(path[Pold[v, k], w], Pold[v, k] != w, Pold[v, k] != v))") + ")"},
+    ensures=[('next-node-is-one-connection-closer', _N2 % ("implies(And(v != w, result(0)[v, w] < INF), And(inr(result(2)[v, w], n0), adjacency[v, result(2)[v, w]] != 0, "
+                                                          "result(0)[v, w] == adjacency[v, result(2)[v, w]] + result(0)[result(2)[v, w], w], "
+                                                          "result(1)[v, w] == 1 + result(1)[result(2)[v, w], w], result(1)[v, w] >= 1))")),
+             ('zero-hops-exactly-on-the-diagonal-and-for-infinite-entries', _N2 % "And(result(1)[v, w] >= 0, iff(result(1)[v, w] == 0, Or(v == w, result(0)[v, w] == INF)))"),
+             ('diagonal-zero', "forall(lambda v: implies(inr(v, n0), And(result(0)[v, v] == 0, result(1)[v, v] == 0)))"),
+             ('argument-untouched', "unchanged('adjacency')")])
